@@ -1585,6 +1585,7 @@ dialSuccess:
 	if ue.dialerGenerationRef != nil {
 		ue.dialerGeneration = ue.dialerGenerationRef.Load()
 	}
+	verifYield("endpoint.create.after_generation")
 
 	// Prewarm the initial Anyfrom socket used to reinject replies back to the
 	// client. Symmetric endpoints can pin a single fixed socket. Full-cone
@@ -1595,10 +1596,12 @@ dialSuccess:
 
 	ue.RefreshTtlWithTime(createOption.NowNano)
 
+	verifYield("endpoint.create.before_publish")
 	shard := p.shardFor(key)
 	shard.mu.Lock()
 	shard.pool[key] = ue
 	shard.mu.Unlock()
+	verifYield("endpoint.create.before_register")
 	p.registerEndpoint(ue)
 
 	// Receive UDP messages.
@@ -1737,6 +1740,7 @@ func (p *UdpEndpointPool) GetOrCreate(key UdpEndpointKey, createOption *UdpEndpo
 		}
 	}
 	shard.mu.Unlock()
+	verifYield("endpoint.getorcreate.after_stale_unlock")
 	if staleToClose != nil {
 		_ = staleToClose.Close()
 	}
